@@ -28,7 +28,9 @@ THEOREMS = ["code_shape_is_repaired", "check_readonly", "check_reports_unfixed",
             "universe_schema_ok", "empty_alias_clean", "one_transaction_fix_converges", "dup_and_missing_entry_converges",
             "junk_at_missing_value_converges", "emptied_store_converges",
             "layered_scan_is_view", "layered_access_is_view", "layered_check_sound", "layered_check_sound_reports",
-            "layered_check_complete", "layered_check_readonly", "layered_fix_converges", "layered_healthy_clean"]
+            "layered_check_complete", "layered_check_readonly", "layered_fix_converges", "layered_healthy_clean",
+            "key_nil_iff", "empty_string_key_nil_type_not", "fk_index_empty_is_no_reference",
+            "fk_constraint_empty_is_no_reference", "empty_string_refs_clean"]
 TABLE_OBLIGATIONS = ["code_shape_is_repaired (Generated/C09Quirks.lean, regenerated from boltz/link_collection.go and "
                      "boltz/indexes.go: IterateLinks is a read-only lookup, the unique-index entity loop skips an empty "
                      "value like nil, dangling links are removed after the link-cursor loop)"]
@@ -97,7 +99,10 @@ RULE = ("random histories (4-17 operations through Create/Update/DeleteById/SetL
         "created / updated through the parent or one of the child stores (a thing may carry neither, one or both kinds of "
         "child data), corruptions also hit the child stores' indexes, fields and membership (data bucket deleted / created "
         "empty); all 64 assignments of {parent-only, extended, plain, both} to three ids as healthy databases and with one "
-        "child-index corruption; 8 more shared targets inside the child stores. non-trivial = at least one corruption "
+        "child-index corruption; 8 more shared targets inside the child stores. The EMPTY STRING: one random history in five writes "" through the API "
+        "into alias / owner / dep / boss / tag / nick / label (accepted as no value) and tries empty list elements and links "
+        "to the id \"\" (refused); all 128 subsets of those seven fields set to \"\" as healthy databases and with a stale "
+        "back-reference; raw writes of \"\" into every fk field. non-trivial = at least one corruption "
         "applied and at least one report in the check-only phase; distinct = (mode, sorted set of (class, index) "
         "pairs reported in phase 1, number of reports in phase 3)")
 
